@@ -95,6 +95,17 @@ def gen_cases(rng, tier):
                 steps.append("%d:between" % tt); tt += 500
             steps += ["%d:resp2" % tt, "%d:wait" % (tt + 5000)]
             cases.append(["ur%d" % k, "c11", "ua", "uac", "se=1800;refresh=do;between", ",".join(steps), "1"]); k += 1
+    # several refresh rounds in one session: every round's ACK carries the number of that round's re-INVITE (the peer answers whatever
+    # request is the newest every 4 s; an answer to a request already answered only makes the same ACK go out again)
+    for se, horizon in ((90, 260000), (40, 130000)):
+        ex = ("Contact: <sip:peer-a@10.9.9.9:5070;transport=udp>\r\nSupported: timer\r\nRequire: timer\r\nSession-Expires: %d;refresher=uac\r\n" % se).encode().hex()
+        steps = ["0:invite", "1000:resp:200:a:" + ex]
+        for t in range((se - 10) * 1000 + 2500, horizon, 4000):
+            if (t // 4000) % 5 == 0:
+                steps.append("%d:between" % (t - 300))
+            steps.append("%d:resp2" % t)
+        steps.append("%d:wait" % (horizon + 3000))
+        cases.append(["urm%d" % k, "c11", "ua", "uac", "se=1800;refresh=do;between", ",".join(steps), "1"]); k += 1
     return cases
 
 
@@ -134,8 +145,16 @@ def _ua_oracle(case, impl):
             return ["the refresh re-INVITE did not go out (INVITE numbers on the wire: %r)" % sorted(set(reinv))]
         if not acks:
             return ["no ACK for the 2xx of the refresh re-INVITE on the wire"]
-        if any(a != reinv[-1] for a in acks):
-            return ["the ACK for the 2xx of the refresh re-INVITE carries CSeq %s, the re-INVITE had %s" % (acks, reinv[-1])]
+        last_inv, n_rounds = None, 0
+        for m in re.finditer(r"W:(INVITE|ACK)_\S*?\|cseq=(\d+)_(?:INVITE|ACK)\|", impl):
+            if m.group(1) == "INVITE":
+                if m.group(2) != last_inv:
+                    n_rounds += 1
+                last_inv = m.group(2)
+            elif m.group(2) != last_inv:
+                return ["the ACK for the 2xx of refresh re-INVITE number %d carries CSeq %s, that re-INVITE had %s" % (n_rounds - 1, m.group(2), last_inv)]
+        if case[0].startswith("urm") and n_rounds < 4 and len(case[5]) > 600:
+            return ["%d INVITE numbers on the wire over the whole session, at least three refresh rounds expected" % n_rounds]
     # caller side: the request created inside the new dialog goes to the Contact of the peer's response along the reversed Record-Route
     for m in re.finditer(r"probe:(\w+):uri=([^/]*)/route=(\S*?)/totag=(\S*?)@\d+", impl):
         tag, uri, route, totag = m.groups()
